@@ -185,6 +185,7 @@ Example C05_cast_widths :
   as_bool_w [32; 0; 0; 0; 48] = Ok None /\
   type_of_w [32; 0; 0; 0; 48] = Err EOther.
 Proof. vm_compute. repeat split; reflexivity. Qed.
+Print Assumptions C05_cast_widths.
 
 (* a nested document: a string value two levels down, a key three levels down, misses, and the empty needle *)
 Definition c05_doc : value :=
@@ -204,6 +205,7 @@ Example C05_traverse_example :
   traverse_check_string_b [128; 0; 0; 1; 80; 0; 0; 4; 160; 0; 0; 1] (fun _ => false) = Panic /\
   traverse_check_string_b [128; 0; 0; 2; 80; 0; 0; 0] (fun _ => false) = Ok false.
 Proof. vm_compute. repeat split; reflexivity. Qed.
+Print Assumptions C05_traverse_example.
 
 (* on EVERY buffer, valid or not, the traversal model ends with a boolean or a panic: the recursion fuels of the model
    (entry loop, level loop) are never what decides, so the model has no outcome the code does not have *)
@@ -252,6 +254,7 @@ Example C05_exists_keys_bytes_example :
   exists_any_keys_w (enc (VStr [97])) [[97]] = Ok false /\
   exists_all_keys_w (enc (VStr [97])) [] = Ok true.
 Proof. vm_compute. repeat split; reflexivity. Qed.
+Print Assumptions C05_exists_keys_bytes_example.
 
 (* The offset expressions of the byte walkers are generated from the source (gen/Constants.v, names JBI_ JBN_ OKS_ OEA_ AVS_ CMP_
    CPR_ CMA_ CMO_ CVC_ CVA_ CVO_ CTS_ STS_ SOV_ SAV_ SBN_ SBI_ BSA_; the walker models above call them).  All readers and the
